@@ -12,14 +12,14 @@ import (
 	"verifh/mon"
 )
 
-const rule = "fault enumeration over generated inputs. blockdb: seeded database shapes (key length 1..100, 0..1000 keys, " +
+const rule = "fault enumeration over generated inputs. blockdb: seeded database shapes (key length 1..127 = the int8 range of the API, 0..1000 keys, " +
 	"hex/binary/dense/extreme keys, compression on/off, header on/off) written through the real WriteData/Save, reopened with the real " +
 	"fixedKeyArrayIndex (and the map index): every stored key is read back (exact bytes vs. the bytes handed to WriteData) and absent " +
 	"keys {below min, between every adjacent pair, above max, prefix, extension, random, empty} are looked up, every lookup under a 20 s " +
 	"logical bound with the lookup printed before it starts; crash points = the writer's file states at every write(2) boundary of " +
 	"WriteData/Save plus truncation of .dat and .idx at every record/entry boundary and +-1 byte, each reopened and every key read. " +
 	"blockstore: seeded blocks (0..N signed txns with outputs, tickets, optional magic block with miners/sharders/mpks/shares) through the real " +
-	"Init/Write/Read, compared field by field with a snapshot taken before Write; the stored file truncated at 0,1,2, every 4 KiB, every " +
+	"Init/Write/Read (one child with the block cache enabled: Write, then three sequential Reads), compared field by field with a snapshot taken before Write; the stored file truncated at 0,1,2, every 4 KiB, every " +
 	"64 KiB +-1 and the last 9 bytes. distinct = (store, shape class, fault class, lookup class, outcome class) tuples."
 
 // Main is the engine entry point: verifh store -prop C26 -tier quick|thorough.
@@ -44,6 +44,7 @@ func Main(args []string) int {
 	run.Assume("crash = any prefix of the writer's syscall-ordered file contents, plus truncation of either final file at record boundaries +-1 byte; no torn-page / reordered-sector model of the filesystem")
 	run.Assume("blockdb keys written to one database all have the declared key length (the API contract of NewBlockDB); lookup keys have any length")
 	run.Assume("a truncated block file that still decodes to the identical block is counted, not reported: the statement only forbids a different block")
+	run.Assume("the block cache is filled by goroutines the store starts itself; the harness calls Write/Read strictly sequentially, so a mismatch there (signature C26:blockstore-cache-readback-mismatch) depends on the store's internal scheduling and is not reproducible from the seed alone")
 
 	nSweep, nAbsent, nBS := 4, 6, 3
 	to := 4 * time.Minute
